@@ -173,6 +173,29 @@ impl Phase for DeepNest {
     }
     fn run(&mut self, _idx: u64, r: &mut Rng, out: &mut Out) {
         use crate::refmodel::parse::Ast;
+        if r.chance(1, 3) {
+            // long flat sequences: hundreds of elements with effects
+            let n = r.range(100, 700);
+            let elems: Vec<Ast> = (1..=n as i64)
+                .map(|k| match k % 5 {
+                    0 => Ast::Assign("=", "x".into(), Box::new(Ast::Const(RV::Int(k)))),
+                    1 => Ast::Call("t".into(), Box::new(Ast::Const(RV::Int(k)))),
+                    2 => Ast::Empty,
+                    3 => Ast::Bin("+", Box::new(Ast::Read("x".into())), Box::new(Ast::Const(RV::Int(k)))),
+                    _ => Ast::Const(RV::Int(k)),
+                })
+                .collect();
+            let a = match r.below(3) {
+                0 => Ast::Tuple(elems),
+                1 => Ast::Chain(elems),
+                _ => Ast::Chain(elems.chunks(7).map(|c| if c.len() == 1 { c[0].clone() } else { Ast::Tuple(c.to_vec()) }).collect()),
+            };
+            let toks = render_ast(&a, Parens::Minimal, Some(r), false);
+            let src = render_spaced(&toks);
+            out.count("long flat sequences");
+            judge_and_run(out, &toks, &src, false);
+            return;
+        }
         let depth = r.range(10, 60);
         let mut k = 0i64;
         let mut a = Ast::Const(RV::Int(0));
